@@ -38,6 +38,10 @@ type Oblig struct {
 	Contexts int
 	Detail   string
 	Pos      token.Pos
+	// Fails: indexes of the sub-goals (lower bound, upper bound, ...) that some path condition does
+	// not entail. Part of the obligation's key when it is not discharged, so that an entry of the
+	// assumed table covers exactly the sub-goal that was argued by hand.
+	Fails map[int]bool
 }
 
 type interp struct {
@@ -606,6 +610,10 @@ func (it *interp) havoc(d *disjunct, escaped map[string]bool) {
 // ---- obligations --------------------------------------------------------------------------------
 
 func (it *interp) oblige(fn *ssa.Function, in ssa.Instruction, kind, text string, ok bool, detail func() string) {
+	it.obligeParts(fn, in, kind, text, ok, nil, detail)
+}
+
+func (it *interp) obligeParts(fn *ssa.Function, in ssa.Instruction, kind, text string, ok bool, fails []int, detail func() string) {
 	if !it.record {
 		return
 	}
@@ -617,6 +625,12 @@ func (it *interp) oblige(fn *ssa.Function, in ssa.Instruction, kind, text string
 		it.oblOrder = append(it.oblOrder, k)
 	}
 	o.Contexts++
+	for _, i := range fails {
+		if o.Fails == nil {
+			o.Fails = map[int]bool{}
+		}
+		o.Fails[i] = true
+	}
 	if !ok && o.OK {
 		o.OK = false
 		if detail != nil {
@@ -625,30 +639,36 @@ func (it *interp) oblige(fn *ssa.Function, in ssa.Instruction, kind, text string
 	}
 }
 
-// need checks that every disjunct of s entails all goals built by mk; it records an obligation.
+// need checks that every disjunct of s entails all goals built by mk; it records an obligation and
+// which of the goals (by index) are not entailed.
 func (it *interp) need(s *state, fn *ssa.Function, in ssa.Instruction, kind, text string, mk func(d *disjunct) []lin.Ineq) {
 	if !it.record {
 		return
 	}
 	ok := true
 	var detail func() string
+	var fails []int
+	failed := map[int]bool{}
 	for _, d := range s.ds {
-		for _, g := range mk(d) {
-			if dbg := os.Getenv("RTPCHECK_NEEDDBG"); dbg != "" && strings.Contains(core.FuncName(fn), dbg) && kind == "IDX" {
+		for gi, g := range mk(d) {
+			if failed[gi] {
+				continue
+			}
+			if dbg := os.Getenv("RTPCHECK_NEEDDBG"); dbg != "" && strings.Contains(core.FuncName(fn), dbg) && (kind == "IDX" || kind == os.Getenv("RTPCHECK_NEEDKIND")) {
 				fmt.Printf("NEED %s %s entails=%v :: %s\n", it.prog.Position(in.Pos()), kind, it.entails(d, g), it.describe(d, g))
 			}
 			if !it.entails(d, g) {
-				ok = false
-				dd, gg := d, g
-				detail = func() string { return it.describe(dd, gg) }
-				break
+				failed[gi] = true
+				fails = append(fails, gi)
+				if ok {
+					ok = false
+					dd, gg := d, g
+					detail = func() string { return it.describe(dd, gg) }
+				}
 			}
 		}
-		if !ok {
-			break
-		}
 	}
-	it.oblige(fn, in, kind, text, ok, detail)
+	it.obligeParts(fn, in, kind, text, ok, fails, detail)
 }
 
 func (it *interp) sortedObligs() []*Oblig {
